@@ -759,7 +759,11 @@ impl<'a> Ref<'a> {
                     }
                 }
                 None => {
-                    if p.optional {
+                    if p.optional && *proto != Proto::Null && crate::jsval::HOSTILE.contains(&p.key.as_str()) {
+                        // no own property, but `value.constructor` / `value.toString` is there all the same (inherited):
+                        // TypeScript itself relates `{}` to `{ toString?: number }` through the inherited member. Not pinned.
+                        Unspec
+                    } else if p.optional {
                         Yes
                     } else if crate::jsval::HOSTILE.contains(&p.key.as_str()) {
                         // inherited from Object.prototype: not pinned
